@@ -195,3 +195,105 @@ Proof.
     + intros Hall. split; [|discriminate]. intros r Hr. unfold mk_reqs in Hr. rewrite app_nil_r in Hr.
       apply in_map_iff in Hr as (i & <- & Hi). apply in_seq in Hi. apply Hall. lia.
 Qed.
+
+(** ** the empty-copy bookkeeping as coded ([kstep]) *)
+Lemma kstart_code reqs : kstart false reqs = cstart reqs.
+Proof. destruct reqs; reflexivity. Qed.
+
+Lemma kstep_cstep s e : CInv s -> kstep s e = cstep s e.
+Proof.
+  intros [Hnd Hr Han He Hd]. unfold kstep, cstep, cstep_gen. destruct (cc_crashed s); [reflexivity|].
+  destruct e as [id|].
+  - destruct (Nat.ltb_spec 0 (cc_done s)) as [Hlt|Hge].
+    + assert (En : cc_reqs s = []).
+      { rewrite Hd in Hlt. destruct (cc_reqs s); [reflexivity|]. cbn in Hlt. lia. }
+      rewrite En. reflexivity.
+    + destruct (lookup_req id (cc_reqs s)) as [k|]; [|reflexivity]. destruct k; reflexivity.
+  - cbn [andb]. destruct (cc_empty s) eqn:Ee; [|reflexivity].
+    assert (En : cc_reqs s = []).
+    { rewrite Hr. symmetry in He. apply andb_true_iff in He as [Ha _]. destruct (cc_all s); [reflexivity|discriminate]. }
+    rewrite En. reflexivity.
+Qed.
+
+Lemma kcrashed_sticky evs : forall s, cc_crashed s = true -> krun s evs = s.
+Proof.
+  induction evs as [|e r IH]; intros s H; [reflexivity|]. cbn.
+  assert (E : kstep s e = s) by (unfold kstep; rewrite H; reflexivity).
+  rewrite E. apply IH. assumption.
+Qed.
+
+Lemma krun_crun evs : forall s, CInv s -> krun s evs = crun s evs.
+Proof.
+  induction evs as [|e r IH]; intros s H; [reflexivity|].
+  change (krun s (e :: r)) with (krun (kstep s e) r).
+  change (crun s (e :: r)) with (crun (cstep s e) r).
+  rewrite (kstep_cstep s e H). destruct (cc_crashed (cstep s e)) eqn:E.
+  - rewrite (kcrashed_sticky r _ E), (crashed_sticky r _ E). reflexivity.
+  - apply IH. apply cstep_inv; assumption.
+Qed.
+
+Lemma k_completes_iff reqs evs : NoDup (map fst reqs) ->
+  let s := krun (kstart false reqs) evs in
+  cc_crashed s = false ->
+  (cc_done s <= 1)%nat /\
+  (cc_done s = 1%nat <->
+     (forall r, In r reqs -> In (fst r) (rsp_ids evs)) /\ (reqs = [] -> has_tick evs = true)) /\
+  NoDup (rsp_ids evs) /\ incl (rsp_ids evs) (map fst reqs).
+Proof.
+  intros Hnd. rewrite kstart_code, (krun_crun evs _ (cstart_inv reqs Hnd)). apply completes_iff. assumption.
+Qed.
+
+(** No panic in a protocol-respecting environment: every response answers a
+    request of the command, none twice. *)
+Lemma k_no_panic reqs evs : NoDup (map fst reqs) ->
+  NoDup (rsp_ids evs) -> incl (rsp_ids evs) (map fst reqs) ->
+  cc_crashed (krun (kstart false reqs) evs) = false.
+Proof.
+  intros Hnd. rewrite kstart_code, (krun_crun evs _ (cstart_inv reqs Hnd)).
+  assert (G : forall evs s, CInv s -> cc_crashed s = false ->
+              NoDup (cc_ans s ++ rsp_ids evs) -> incl (rsp_ids evs) (map fst (cc_all s)) ->
+              cc_crashed (crun s evs) = false).
+  { clear. induction evs as [|e r IH]; intros s H Hc Hn Hi; [exact Hc|].
+    change (crun s (e :: r)) with (crun (cstep s e) r).
+    assert (Es : cc_crashed (cstep s e) = false).
+    { unfold cstep, cstep_gen. rewrite Hc. destruct e as [id|]; [|cbn [andb]; destruct (cc_empty s); reflexivity].
+      destruct (lookup_req id (cc_reqs s)) eqn:El; [reflexivity|]. exfalso.
+      assert (Hin : In id (map fst (cc_all s))) by (apply Hi; cbn; left; reflexivity).
+      assert (Hna : ~ In id (cc_ans s)).
+      { intros Ha. cbn in Hn. apply NoDup_remove_2 in Hn. apply Hn. apply in_app_iff. left. exact Ha. }
+      apply in_map_iff in Hin as (q & Eq & Hq).
+      assert (Hf : In q (cc_reqs s)).
+      { rewrite (ci_reqs s H). apply filter_In. split; [exact Hq|]. apply negb_true_iff.
+        destruct (answered (cc_ans s) q) eqn:Ea; [|reflexivity]. exfalso. apply Hna.
+        unfold answered in Ea. apply existsb_exists in Ea as (y & Hy & E). apply N.eqb_eq in E. rewrite <- Eq, E. exact Hy. }
+      unfold lookup_req in El. destruct (find _ (cc_reqs s)) eqn:Ef; [discriminate|].
+      apply (find_none _ _ Ef) in Hf. rewrite Eq, N.eqb_refl in Hf. discriminate. }
+    destruct (cstep_ghost s e Es) as (A & B & _).
+    apply IH; [apply cstep_inv; assumption|exact Es| |].
+    - rewrite B, <- app_assoc. destruct e; cbn in *; exact Hn.
+    - rewrite A. intros x Hx. apply Hi. destruct e; cbn; [right|]; exact Hx. }
+  intros Hn Hi. apply G; [apply cstart_inv; exact Hnd|reflexivity|exact Hn|exact Hi].
+Qed.
+
+Lemma k_zero_byte nflush evs : (0 < nflush)%nat ->
+  let s := krun (kstart false (zero_byte_reqs nflush)) evs in
+  cc_empty (kstart false (zero_byte_reqs nflush)) = false /\
+  ((NoDup (rsp_ids evs) /\ (forall id, In id (rsp_ids evs) -> exists i, (i < nflush)%nat /\ id = N.of_nat i)) ->
+     cc_crashed s = false) /\
+  (cc_crashed s = false ->
+     (cc_done s <= 1)%nat /\
+     (cc_done s = 1%nat <-> forall i, (i < nflush)%nat -> In (N.of_nat i) (rsp_ids evs))).
+Proof.
+  intros Hpos s. subst s. unfold zero_byte_reqs. split; [destruct nflush; [lia|reflexivity]|]. split.
+  - intros [Hn Hi]. apply k_no_panic; [apply mk_reqs_nodup|exact Hn|].
+    intros id Hid. destruct (Hi id Hid) as (i & Hlt & ->). rewrite mk_reqs_flush_ids.
+    apply in_map. apply in_seq. lia.
+  - intros Hc. destruct (k_completes_iff (mk_reqs nflush 0) evs (mk_reqs_nodup nflush) Hc) as (A & B & _).
+    split; [exact A|]. rewrite B. split.
+    + intros [Hall _] i Hi. specialize (Hall (N.of_nat i, QFlush)). apply Hall.
+      unfold mk_reqs. rewrite app_nil_r. apply in_map_iff. exists i. split; [reflexivity|]. apply in_seq. lia.
+    + intros Hall. split.
+      * intros r Hr. unfold mk_reqs in Hr. rewrite app_nil_r in Hr.
+        apply in_map_iff in Hr as (i & <- & Hi). apply in_seq in Hi. apply Hall. lia.
+      * intros E. destruct nflush; [lia|discriminate].
+Qed.
